@@ -3059,16 +3059,18 @@ class LocalGitClient(GitClient):
                 # Validate all ref updates first before applying any
                 for refname, new_sha1 in new_refs.items():
                     old_sha1 = old_refs.get(refname, ZERO_SHA)
+                    try:
+                        current = target.refs[refname]
+                    except KeyError:
+                        current = ZERO_SHA
+                    if current == old_sha1:
+                        continue
                     if new_sha1 != ZERO_SHA:
-                        current = target.refs.get_peeled(refname)
-                        if current is not None and current != old_sha1:
-                            ref_status[refname] = (
-                                f"unable to set {refname!r} to {new_sha1!r}"
-                            )
+                        ref_status[refname] = (
+                            f"unable to set {refname!r} to {new_sha1!r}"
+                        )
                     else:
-                        current = target.refs.get_peeled(refname)
-                        if current is not None and current != old_sha1:
-                            ref_status[refname] = "unable to remove"
+                        ref_status[refname] = "unable to remove"
                 if ref_status:
                     # Atomic push: if any ref would fail, fail them all
                     for refname in new_refs:
